@@ -544,6 +544,8 @@ pub struct Absorb {
     /// the item is the WHOLE of a root input slice (start 0, length = that input's length symbol)
     pub whole: bool,
     pub lin: Option<String>, // for single bytes: rendered linear form (identity of ctx.len etc.)
+    /// exact-copy provenance of the item (tag of the array it is a whole / range copy of)
+    pub tag: Option<String>,
 }
 
 #[derive(Clone, Debug, PartialEq)]
@@ -681,7 +683,7 @@ impl Val {
                 }
                 (Opaque::Xof { kind: k1, .. }, Opaque::Xof { kind: k2, .. }) if k1 == k2 => {
                     // different absorb histories merged (e.g. the three mu paths): keep kind only
-                    Val::Opq(Opaque::Xof { kind: k1.clone(), absorbed: Rc::new(vec![Absorb { src: "<joined>".into(), len_lo: 0, len_hi: i128::MAX, consts: None, taint: 3, taint_all: 0, whole: false, lin: None }]), pos_lo: 0, pos_hi: i128::MAX, id: u32::MAX })
+                    Val::Opq(Opaque::Xof { kind: k1.clone(), absorbed: Rc::new(vec![Absorb { src: "<joined>".into(), len_lo: 0, len_hi: i128::MAX, consts: None, taint: 3, taint_all: 0, whole: false, lin: None, tag: None }]), pos_lo: 0, pos_hi: i128::MAX, id: u32::MAX })
                 }
                 (Opaque::Str, Opaque::Str) => Val::Opq(Opaque::Str),
                 _ => Val::Top,
